@@ -101,7 +101,7 @@ class Case final : public sim::CaseBase {
   void Generate(sim::Gen& g) final {
     type = static_cast<int>(g.Draw(kTypeCount));
     thread_wrapper = g.Flip();
-    const std::uint32_t n = 1 + g.Draw(40);
+    const std::uint32_t n = 1 + g.Draw(sim::Thorough() ? 120 : 40);
     for (std::uint32_t i = 0; i < n; ++i) {
       Op op;
       op.kind = static_cast<int>(g.Draw(kOpCount));
